@@ -133,7 +133,7 @@ def c12(run):
     run.assumptions += ["sequential consistency of the atomics/locks at yield-point granularity",
                         "schedules are replayed with blocking verif hooks inside a testing/synctest bubble"]
     replay_conc(run, cases, ["C12_"])
-    explore(run, "c12", 4000 if quick else 200000, ["C12_"])
+    explore(run, "c12", 8000 if quick else 200000, ["C12_"])
     if design_cex and not run.violations and not run.known_hits:
         raise vlib.Inconclusive("design-level counterexamples %s not reproduced on the code" % design_cex)
 
@@ -282,6 +282,6 @@ def c17(run):
     run.assumptions += ["race detector reports are diagnostics (counted in coverage), not verdicts",
                         "stress runs use wall-clock real threads: their schedules are not reproducible, their seeds are"]
     replay_conc(run, cases, ["C17_"])
-    explore(run, "c17", 4000 if quick else 200000, ["C17_"])
+    explore(run, "c17", 24000 if quick else 400000, ["C17_"])
     stress(run, 48 if quick else 1600)
     run.sample({"stress": "2..4 writers append interleaved chunks of a 40..160 header chain, 2 observers sample Head/Height and re-read the head, optional deleter prunes the tail"})
